@@ -13,6 +13,7 @@ LEVEL = "exploration"
 TECHNIQUE = ('deterministic simulation, history check by the reference model: row-level audit trace of every emitted stream (redundant entries, missed elisions, missed zero forms, graph starts vs runs, size vs naive baseline)')
 LEVEL_NOTE = ('sampled inputs x presets; audit by the independent decoder')
 OPTIMIZED_EVERY = 25      # every 25th run is executed in a child interpreter started with python -O
+PBPY_EVERY = 50           # every 50th run (offset 6) is executed with protobuf's pure-Python backend
 COMPILED_EVERY = 25       # every 25th run (offset 12) is executed in a child that imports a mypyc build of the tree
 RUNS = {"quick": 50000, "thorough": 1000000}
 RULE = ("row-level audit by the reference decoder of every stream the real writers emit in seeded runs (both "
